@@ -7,6 +7,7 @@ CONSTANTS
   ExistingSets <- Old2
   GrpcExtras <- Ex1
   GrpcMaxSteps = 2
+  Grpc3Progs <- CtxProgs
   Ops <- RouteOps
   MaxOps = 4
 ACTION_CONSTRAINT Emit
